@@ -65,7 +65,7 @@ func (n *liveNode) exec(h int64, b *c13Block, now time.Time) (del []abcitypes.Re
 	for _, tx := range b.txs {
 		n.a.CheckTx(abcitypes.RequestCheckTx{Tx: tx})
 	}
-	n.a.BeginBlock(abcitypes.RequestBeginBlock{Header: tmproto.Header{ChainID: govChainID, Height: h, Time: now}})
+	n.a.BeginBlock(abcitypes.RequestBeginBlock{Header: tmproto.Header{Height: h, Time: now}})
 	for _, tx := range b.txs {
 		del = append(del, n.a.DeliverTx(abcitypes.RequestDeliverTx{Tx: tx}))
 	}
@@ -84,7 +84,15 @@ func runC13(r *simkit.Run) {
 	app.PersistMinDuration = time.Duration(c.Range(0, 30, "persist-min-s")) * time.Second
 
 	// 1. generate the history with the never-stopped reference
-	w := newGovWorld(r, govParams{maxUniverse: 4, replicas: 1, smallThresh: true})
+	// the chain id is part of what a restart must bring back: the deployed networks have
+	// chain-specific fork rules keyed by it
+	chainID := govChainID
+	if c.Chance(300, "deployed-chain-id") {
+		chainID = simkit.Pick(c, []string{"shutter-api-gnosis-1002", "shutter-gnosis-1000", "shutter-chiado-102000", "shutter-api-gnosis-1001", "shutter-service-chiado-1000"}, "chain-id")
+		r.Probe("deployed-chain-id")
+	}
+	r.Eventf("chain id %s", chainID)
+	w := newGovWorld(r, govParams{chainID: chainID, maxUniverse: 4, replicas: 1, smallThresh: true})
 	c13DevMode = c.Chance(120, "dev-mode")
 	w.chain.Replicas[0].App.DevMode = c13DevMode
 	if c13DevMode {
